@@ -29,7 +29,7 @@ ASSUMPTIONS = [
     "lines whose fragments the sampler cannot instantiate are skipped and counted (skipped_unsampled)",
 ]
 EXHAUSTIVE = {"quick": True, "thorough": True}
-FLOORS = {"quick": {"A_matches": 5000, "A_reverse": 2000, "B_rules": 150, "B_ignore_rules": 100, "B_ignore_case_rules": 100, "C_lines": 1500, "C_rows": 10000, "B_inline_flag_rules": 400, "B_nested_ignore_rules": 200, "B_governing_rule_lookups": 8000, "B_implicit_completions": 60},
+FLOORS = {"quick": {"A_matches": 5000, "A_reverse": 2000, "B_rules": 150, "B_ignore_rules": 100, "B_ignore_case_rules": 100, "C_lines": 1500, "C_rows": 10000, "B_inline_flag_rules": 400, "B_nested_ignore_rules": 200, "B_governing_rule_lookups": 8000, "B_implicit_completions": 60, "B_inline_flag_diffs": 30, "B_texts_loaded_through_the_provider": 9},
           "thorough": {"A_matches": 5000, "A_reverse": 2000, "B_rules": 150, "B_ignore_rules": 100, "B_ignore_case_rules": 100, "C_lines": 1500, "C_rows": 10000}}
 PREFIXES = ["undo", "no", "delete", "remove", "-"]
 VENDOR_BY_PREFIX = {"undo": "huawei", "no": "cisco", "delete": "juniper", "remove": "routeros", "-": "pc"}
@@ -395,8 +395,73 @@ def run_B(spec, acc):
             if sorted(got_i) != sorted(rows_m) or any(list(got_i[r]) != ["zz-default 1"] for r in got_i):
                 acc.violation("C07/B/implicit-rule-applied-to-other-lines", "an implicit rule with a nested default does not complete exactly the lines its pattern matches",
                               {"pattern": q, "vendor": vendor, "lines": rows_m, "completion": {k: list(v) for k, v in got_i.items()}})
+        # ... the (?i) marker of a patching rule is also what the diff goes by: two lines that differ in letter case only are one line
+        from annet.annlib.patching import make_diff, strip_unchanged
+        from collections import OrderedDict as _od2
+        for q in [q_ for q_ in iq if q_.split()[0].isalnum()][:12]:
+            rows_m = [r for r in probe_rows[:70] if R.match(q, r) is not None and r.upper() != r][:2]
+            for r in rows_m:
+                for fl_, want_empty in (("(?i)", True), ("", False)):
+                    rb_ = {"patching": compile_patching_text(fl_ + q + "\n", vendor)}
+                    try:
+                        d_ = strip_unchanged(make_diff(_od2([(r, _od2())]), _od2([(r.upper(), _od2())]), rb_, []))
+                    except Exception as e:
+                        acc.violation("C07/B/inline-flag-diff-exception", "make_diff raised under a one-rule rulebook", {"pattern": fl_ + q, "row": r, "vendor": vendor, "error": repr(e)[:200]})
+                        continue
+                    acc.count("B_inline_flag_diffs")
+                    if want_empty and d_:
+                        acc.violation("C07/B/inline-ignore-case-flag/diff", "under a patching rule written with the inline (?i) flag, two lines that differ in letter case only are reported as a change",
+                                      {"pattern": fl_ + q, "old": r, "new": r.upper(), "vendor": vendor, "diff_entries": len(d_)})
+        run_B_provider(acc, vendor)
     acc.sample({"shared_text_lines": pats[:8], "probe_rows": probe_rows[:8]})
     run_B_nested(acc)
+
+
+PROVIDER_LINES = ["# a comment line", "channel#1 *", "alias */\\w+#\\d+/ ~", "   # an indented comment line", "save#force ~ %timeout=45", "plain *", "c#"]
+
+
+def run_B_provider(acc, vendor):
+    """rule texts reach the compilers through the rulebook provider (files under <root>/texts): what it hands on is the file's text without
+    its comment LINES - a `#` inside a word or a placeholder's expression belongs to the rule"""
+    import shutil
+    import tempfile
+    from annet.rulebook import DefaultRulebookProvider
+    from annet.rulebook.patching import compile_patching_text
+    from annet.annlib.rbparser.ordering import compile_ordering_text
+    from annet.rulebook.deploying import compile_deploying_text
+    from annet.vendors import registry_connector
+    v = registry_connector.get()[vendor]
+    hw = v.hardware
+    text = "\n".join(PROVIDER_LINES) + "\n"
+    own = "\n".join(ln for ln in PROVIDER_LINES if not ln.lstrip().startswith("#")) + "\n"
+    d = tempfile.mkdtemp(prefix="vf_c07_")
+    try:
+        import os
+        os.makedirs(os.path.join(d, "texts"))
+        from annet.annlib.rbparser.platform import VENDOR_ALIASES
+        for name in {VENDOR_ALIASES.get(hw.vendor, hw.vendor) + ".rul", hw.vendor + ".order", hw.vendor + ".deploy"}:
+            with open(os.path.join(d, "texts", name), "w") as f:
+                f.write(text)
+        try:
+            rb = DefaultRulebookProvider(root_dir=[d]).get_rulebook(hw)
+            want = {"patching": compile_patching_text(own, VENDOR_ALIASES.get(hw.vendor, hw.vendor)), "ordering": compile_ordering_text(own, hw.vendor), "deploying": compile_deploying_text(own, hw.vendor)}
+        except Exception as e:
+            acc.violation("C07/B/provider-text-does-not-compile", "a rule text with `#` inside words is refused when it is loaded from a file", {"vendor": vendor, "error": repr(e)[:300]})
+            return
+
+        def sig(kind, comp):
+            if kind == "patching":
+                return sorted((raw, r["attrs"]["regexp"].pattern) for raw, r in comp["local"].items())
+            if kind == "ordering":
+                return sorted((raw, r["attrs"]["direct_regexp"].pattern) for raw, r in comp.items())
+            return sorted((raw, r["attrs"]["regexp"].pattern, r["attrs"]["timeout"]) for raw, r in comp.items())
+        for kind in ("patching", "ordering", "deploying"):
+            acc.count("B_texts_loaded_through_the_provider")
+            if sig(kind, rb[kind]) != sig(kind, want[kind]):
+                acc.violation("C07/B/provider-changes-rule-text/%s" % kind, "a rule text loaded from a file compiles to other rules than the same text handed to the compiler (a `#` inside a word is not a comment)",
+                              {"vendor": vendor, "text": text, "from_file": sig(kind, rb[kind]), "direct": sig(kind, want[kind])})
+    finally:
+        shutil.rmtree(d, ignore_errors=True)
 
 
 NESTED = [("a *", {"timeout": 11}, [("b *", {"timeout": 12}, [("c", {"timeout": 13}, [])]), ("c ~", {"timeout": 14}, [])]),
